@@ -68,8 +68,8 @@ class Logistic(Loss):
         return -y * _expit(-z) / len(y)
 
     def hess(self, y, eta):
-        s = _expit(-y * eta)
-        return s * (1 - s) / len(y)
+        z = y * eta
+        return _expit(z) * _expit(-z) / len(y)    # sigma(z)(1-sigma(z)) without cancellation
 
 
 def _expit(x):
